@@ -12,11 +12,11 @@
                                        coordinate evaluators at the point and hands the
                                        result to the underlying oracle.
 
-   [deep_value] is that recursive structure: an evaluator is a deck plus, for
+   [evaluator] / [oracle_obj] are that recursive structure: an evaluator is a deck plus, for
    each ORACLE clause, the oracle object of that node; a transformed oracle is
    three (recursive) evaluators plus the underlying oracle object. *)
 From Coq Require Import List Arith Bool Lia.
-From LF Require Import Base.Opcode Base.Num Base.Arena Base.Sem Tree.Build Eval.Deck.
+From LF Require Import Base.Opcode Base.Num Base.Arena Base.Sem Tree.Build Tree.Flatten Tree.Optimize Eval.Deck.
 Import ListNotations.
 
 Section OracleEval.
@@ -33,10 +33,14 @@ Section OracleEval.
     match fuel with
     | 0 => o_zero O
     | S f =>
-        let d := mk_deck a root in
+        (* Deck::Deck(const Tree&) starts with root.optimized(): every evaluator built from a
+           tree (the coordinate evaluators of a TransformedOracle included, whose trees may
+           still hold lazy remap nodes) flattens and optimises it first *)
+        let '(a1, r1) := optimized O a root in
+        let d := mk_deck a1 r1 in
         let oracle_at := fun k px py pz =>
           match nth_error (d_oracles d) k with
-          | Some (_, id) => oracle_obj f a id px py pz
+          | Some (_, id) => oracle_obj f a1 id px py pz
           | None => o_zero O
           end in
         tape_value O oracle_at d (d_tape d) (d_root d) vars x y z
